@@ -1127,6 +1127,22 @@ def propagate_toplevel(formula: FNode, env: Optional["pysmt.environment.Environm
             else:
                 sigma[k] = v
 
+    # A symbol that is bound by a quantifier of the formula cannot replace
+    # another one: the substitution would let the quantifier capture it
+    if any(v.is_symbol() for v in sigma.values()) and \
+       not env.qfo.is_qf(formula):
+        bound = set()
+        seen = set()
+        to_visit = [formula]
+        while to_visit:
+            node = to_visit.pop()
+            if node not in seen:
+                seen.add(node)
+                if node.is_quantifier():
+                    bound.update(node.quantifier_vars())
+                to_visit.extend(node.args())
+        sigma = {k: v for k, v in sigma.items() if v not in bound}
+
     res = formula.substitute(sigma)
     if preserve_equivalence:
         res = mgr.And(res, mgr.And([mgr.Equals(k, sigma[k]) for k in sigma]))
